@@ -113,6 +113,31 @@ def main(argv):
     # ---- the Python layer alone, on scripted socket results, against Model.PyLayer (lib/pylayer.py)
     n_pl, d_pl = pylayer.run(c, codec_exe, c.rng, 1500 if thorough else 300, "C03")
     c.coverage["python_layer_cases"] = n_pl
+    # ---- the id generator itself, from any state (guarded hook RequestId::verif_set of /repo, MANIFEST.hooks): whatever was
+    # handed out before - the top of the range included - the next ids lie in 0..2^31-1 and only the id handed out matches
+    okh, logh, hexe = vf.cargo_build_harness("release")
+    n_rid = 0
+    if okh:
+        states = sorted(set([0, 1, 2, 127, 128, 255, 256, 65535, 65536, 2 ** 31 - 3, 2 ** 31 - 2, 2 ** 31 - 1, 2 ** 31, 2 ** 31 + 1, 2 ** 32 - 1, 2 ** 32,
+                             2 ** 63 - 1, -1, -2 ** 31, -2 ** 63] + [rng.randrange(-2 ** 63, 2 ** 63) for _ in range(20)]))
+        outs = vf.run_lines(hexe, ["reqid %d 6" % st for st in states], shards=1)
+        if outs and outs[0] == "NOHOOK":
+            c.assumptions.append("the tree carries no RequestId::verif_set hook: the id generator was only observed from its random states")
+        else:
+            for st, o in zip(states, outs):
+                n_rid += 1
+                c.count(("reqid", st), True)
+                f = dict(x.split("=", 1) for x in o[3:].split(" ")) if o.startswith("OK ") else {}
+                ids = [int(x) for x in f.get("ids", "").split(",") if x]
+                if not o.startswith("OK ") or len(ids) != 6:
+                    c.violation("the id generator fails from state %d: %s" % (st, o[:80]), {"cmd": "reqid %d 6" % st, "observed": o}, key="reqid-fails")
+                elif any(not (0 <= x < 2 ** 31) for x in ids):
+                    c.violation("from generator state %d the next ids are %s: not all in 0..2^31-1" % (st, ids), {"cmd": "reqid %d 6" % st, "observed": o},
+                                key="reqid-out-of-range")
+                elif (f["same"], f["plus31"], f["minus31"], f["plus32"], f["neg"]) != ("1", "0", "0", "0", "0"):
+                    c.violation("RequestId::check after id %d: same=%s +2^31=%s -2^31=%s +2^32=%s complement=%s (only the id itself may match)"
+                                % (ids[-1], f["same"], f["plus31"], f["minus31"], f["plus32"], f["neg"]), {"cmd": "reqid %d 6" % st, "observed": o}, key="reqid-check")
+    c.coverage["id_generator_states"] = n_rid
     return c.finish(
         rule="%d datagrams emitted by %d concurrent sessions (v1, v2c x2, v3 noAuth, SHA, MD5+DES, SHA+AES, MD5+AES; password/master/localized "
              "keys; sync/async) under interleaved get / get_many (0..30 OIDs) / getnext / getbulk (max_repetitions 1..2^31-1 and default) / "
